@@ -391,7 +391,9 @@ class Prop(SeqProp):
                 w = op.split()
                 try:
                     if w[0] == "fp_new":
-                        paths = [os.path.join(d, f"f{k}") for k in w[1:]]
+                        # ordinary names, and names with spaces, unicode and the characters shells expand
+                        names = ["f{}", "part[{}].txt", "report {} [final].txt", "a*{}", "q?{}.txt", "ü {}.dat", "{{{}}}"]
+                        paths = [os.path.join(d, names[(int(k) + len(w)) % len(names)].format(k)) for k in w[1:]]
                         for p in paths:
                             open(p, "w").write("x\n")
                         fp = FilePool(paths if case.meta.get("plain_list") else (iter(paths) if len(paths) % 2 else paths), mode)
